@@ -23,16 +23,23 @@ META = dict(
                'adsg_core.optimization.dv_output_defs.Objective.from_metric_node',
                'adsg_core.optimization.dv_output_defs.Constraint.from_metric_node',
                'adsg_core.optimization.evaluator.DSGEvaluator.evaluate'],
-    bounds=dict(direction='any integer', reference='any real', evaluator_values='any real / NaN / missing',
-                placements='metric under a permanent node or under one option of a selection choice',
-                graphs='one metric node (classification); three metric nodes, two architectures (evaluation)'),
-    outside=['graphs other than the templates (placement is a graph-structure quantifier)',
-             'metric nodes that are conditional through longer derivation chains'],
+    bounds=dict(direction='any integer', reference='any real', evaluator_values='any real / NaN / missing / given although the node is absent',
+                placements='metric under a permanent node, under one option of a selection choice, under a nested option, under a node '
+                           'derived both without a choice and from an option',
+                graphs='one metric node; pairs (every configuration next to six representative neighbours; all 40x40 in the thorough tier) '
+                       'and triples of metric nodes; seeded random graphs with up to three metric nodes (60 quick / 600 thorough per run); '
+                       'three metric nodes, two architectures (evaluation)',
+                histories='two evaluations with one evaluator (four architecture orders x 54 behaviour pairs); values already stored on '
+                          'the design space graph; processors on the whole and on a sub design space sharing the node objects, both orders; '
+                          'every valid design of a random graph evaluated in listing order by one evaluator (<= 12 designs)'),
+    outside=['graphs other than the templates and the seeded random graphs (placement is a graph-structure quantifier)',
+             'for a metric that exists in every architecture only through choices both readings (objective possible / not) are accepted: '
+             'the property makes existence a necessary condition only'],
     stubs=['_evaluate is the stub the API asks the user to provide', 'XDG_CACHE_HOME redirected'],
     assumptions=['z3 sound for LIA/LRA'],
     explanation='symbolic execution (symx + z3) of the metric typing and evaluation code; the symbolic content is thin '
                 '(one sign test, pass-through of reals), the rest is a sweep of 40 placement/declaration configurations and '
-                '2 architectures x 27 evaluator behaviours; every path is one solver obligation',
+                '2 architectures x 64 evaluator behaviours, pairs/triples of nodes, random graphs and the histories listed under bounds; every path is one solver obligation',
 )
 TYPES = [None, 'NONE', 'OBJECTIVE', 'CONSTRAINT', 'OBJ_OR_CON']
 
